@@ -277,13 +277,22 @@ class Run(object):
         except Exception:
             self.out.unspec('dir_raises')
 
-    def op_close(self, k):
+    def op_close(self, k, via=0):
         L = self.pick(k)
         if L is None:
             return
         was = L.closed
+        closer = L.ffi
+        if via:
+            # dlclose() does not need the ffi that opened the library: any ffi of the same mode will do
+            if L.mode.startswith('inline'):
+                others = [l.ffi for l in self.libs if l.mode.startswith('inline') and l.ffi is not L.ffi]
+                closer = others[via % len(others)] if (others and via % 2) else self.check.cffi.FFI()
+            else:
+                closer = self.check.backend.FFI()
+            self.out.probe('closed_through_another_ffi_object')
         try:
-            L.ffi.dlclose(L.lib)
+            closer.dlclose(L.lib)
         except Exception as e:
             if was:
                 raise Violation('C37.3', 'closing an already closed %s library raised %r' % (L.mode, e))
@@ -335,7 +344,7 @@ class Run(object):
         elif n == 'dir':
             self.op_dir(op[1])
         elif n == 'close':
-            self.op_close(op[1])
+            self.op_close(op[1], op[2] if len(op) > 2 else 0)
         elif n == 'droplib':
             self.op_droplib(op[1])
         elif n == 'collect':
@@ -401,6 +410,7 @@ class C37(core.Check):
         sys.path.insert(0, self.hdir)
         import cffi, _cffi_backend, _verif_c37
         self.cffi = cffi
+        self.backend = _cffi_backend
         self.mod = _verif_c37
         self.direct = ctypes.CDLL(self.libpath)       # keeps the library mapped whatever cffi does
         self.shim = ctypes.PyDLL(_cffi_backend.__file__)
@@ -424,7 +434,9 @@ class C37(core.Check):
                 ops.append(['writevar', k, rng.choice(VARS), rng.randint(-1000, 1000)])
             elif n == 'addressof':
                 ops.append(['addressof', k, rng.choice(VARS + FUNCS)])
-            elif n in ('const', 'dir', 'close', 'droplib'):
+            elif n == 'close':
+                ops.append([n, k, rng.randint(1, 4) if rng.chance(0.3) else 0])
+            elif n in ('const', 'dir', 'droplib'):
                 ops.append([n, k])
             else:
                 ops.append(['collect'])
